@@ -54,6 +54,10 @@ def random_spec(rng, name):
             kw = dict(nstates=int(rng.choice([2, 4, 6, 8, 10])), eps=float(rng.uniform(0.05, 0.2)))
         elif name == "shin-metiu":
             kw = dict(nstates=int(rng.integers(2, 5)), nel=32)
+    if kw and name in ("simple", "dual", "extended") and rng.random() < 0.6:
+        # the sign of a diabatic coupling constant is only a phase convention: negative values are legal
+        key = {"simple": "c", "dual": "c", "extended": "b"}[name]
+        kw[key] = -kw[key]
     if name == "blocks":
         nd = int(rng.integers(1, 3))
         kw = dict(ndim=nd, mass=[float(v) for v in 10 ** rng.uniform(2.5, 3.5, size=nd)], k=float(rng.uniform(0.005, 0.02)),
@@ -285,30 +289,49 @@ def _entry_correspondence(ctx):
     rng = ctx.rng
     models = mudslide.models.scattering_models
     jobs = []   # (line, callable giving (V-entry, dV-entry), label)
+
+    def mk(name, **kw):
+        m_ = models[name](**kw)
+        m_._vspec = {"name": name, "kwargs": kw}      # for the failing-input search when an entry disagrees with the model
+        return m_
+
+    def search(m_, x_):
+        spec_ = dict(getattr(m_, "_vspec", {}), x=[x_])
+        if "name" not in spec_ or spec_["name"] in ("modelw", "modelz"):
+            return
+        ok_, obs_, req_, text_ = oracle_model(spec_)
+        if not ok_:
+            ctx.oracle_fail("model-inconsistent:" + spec_["name"], "model", spec_, obs_, req_, text_)
     for _ in range(ctx.budget(20, 1000)):
         x = float(rng.uniform(-6, 6))
         if abs(x) < 0.05:
             x = 0.4
         a, b, c, d, e0 = [float(v) for v in (rng.uniform(0.01, 0.1), rng.uniform(0.3, 1.6), rng.uniform(0.003, 0.02), rng.uniform(0.05, 1.0), rng.uniform(0.02, 0.08))]
         xp = float(rng.uniform(4, 8))
-        m = models["simple"](a=a, b=b, c=c, d=d)
+        m = mk("simple", a=a, b=b, c=c, d=d)
         jobs.append((["mv", 0, fb(a), fb(b), fb(0), 0, 0, fb(x)], m, (0, 0), "simple11"))
         jobs.append((["mv", 1, fb(c), fb(d), fb(0), 0, 0, fb(x)], m, (0, 1), "simple12"))
-        m = models["dual"](a=a, b=b, c=c, d=d, e=e0)
+        m = mk("dual", a=a, b=b, c=c, d=d, e=e0)
         jobs.append((["mv", 2, fb(a), fb(b), fb(e0), 0, 0, fb(x)], m, (1, 1), "dual22"))
         jobs.append((["mv", 3, fb(c), fb(d), fb(0), 0, 0, fb(x)], m, (0, 1), "dual12"))
-        m = models["extended"](a=a, b=b, c=c)
-        jobs.append((["mv", 4, fb(b), fb(c), fb(0), 0, 0, fb(x)], m, (0, 1), "extended12"))
-        m = models["super"](v12=a, v23=c)
+        # (the sign of a diabatic coupling constant is a phase convention: both signs are legal)
+        sg = float(rng.choice([1.0, -1.0]))
+        m = mk("simple", a=a, b=b, c=sg * c, d=d)
+        jobs.append((["mv", 1, fb(sg * c), fb(d), fb(0), 0, 0, fb(x)], m, (0, 1), "simple12"))
+        m = mk("dual", a=a, b=b, c=sg * c, d=d, e=e0)
+        jobs.append((["mv", 3, fb(sg * c), fb(d), fb(0), 0, 0, fb(x)], m, (0, 1), "dual12"))
+        m = mk("extended", a=a, b=sg * b, c=c)
+        jobs.append((["mv", 4, fb(sg * b), fb(c), fb(0), 0, 0, fb(x)], m, (0, 1), "extended12"))
+        m = mk("super", v12=a, v23=c)
         jobs.append((["mv", 5, fb(a), fb(0), fb(0), 0, 0, fb(x)], m, (0, 1), "super12"))
         jobs.append((["mv", 5, fb(c), fb(0), fb(0), 0, 0, fb(x)], m, (1, 2), "super23"))
-        m = models["modelx"](a=a, b=b, c=c, xp=xp)
+        m = mk("modelx", a=a, b=b, c=c, xp=xp)
         for ent, ij in ((6, (0, 0)), (7, (1, 1)), (8, (2, 2))):
             jobs.append((["mv", ent, fb(a), fb(b), fb(xp), 0, 0, fb(x)], m, ij, "modelx%d%d" % ij))
         jobs.append((["mv", 9, fb(c), fb(0.0), fb(0), 0, 0, fb(x)], m, (0, 1), "modelx12"))
         jobs.append((["mv", 9, fb(c), fb(xp), fb(0), 0, 0, fb(x)], m, (0, 2), "modelx13"))
         jobs.append((["mv", 9, fb(c), fb(-xp), fb(0), 0, 0, fb(x)], m, (1, 2), "modelx23"))
-        m = models["models"](a=a, b=b, c=c, d=d, xp=xp)
+        m = mk("models", a=a, b=b, c=c, d=d, xp=xp)
         jobs.append((["mv", 10, fb(a), fb(b), fb(xp), 0, 0, fb(x)], m, (0, 0), "models11"))
         jobs.append((["mv", 11, fb(a), fb(d), fb(0), 0, 0, fb(x)], m, (2, 2), "models33"))
         jobs.append((["mv", 12, fb(c), fb(xp), fb(0), 0, 0, fb(x)], m, (0, 1), "models12"))
@@ -316,10 +339,10 @@ def _entry_correspondence(ctx):
         eps = float(rng.uniform(0.05, 0.2))
         k = int(rng.integers(1, N + 1))
         xs = float(rng.uniform(-0.5, 0.5))
-        mw = models["modelw"](nstates=N, eps=eps)
+        mw = mk("modelw", nstates=N, eps=eps)
         slope = float(np.tan(0.5 * np.pi - (2 * k - 1) * np.pi / (2 * N)))
         jobs.append((["mv", 13, fb(slope), fb(eps), fb(0), k, 0, fb(xs)], mw, (k - 1, k - 1), "modelw"))
-        mz = models["modelz"](nstates=N, eps=eps)
+        mz = mk("modelz", nstates=N, eps=eps)
         jobs.append((["mv", 14, fb(eps), fb(0), fb(0), k, N, fb(xs)], mz, (k - 1, k - 1), "modelz"))
     # the two multi-dimensional diabatic models, every entry of V and of every gradient component
     md_lines, md_keep = [], []
@@ -362,6 +385,7 @@ def _entry_correspondence(ctx):
         sc = max(abs(V), abs(dV), 1e-12)
         if o[0] != "ok" or not close(V, mV, sc, rtol=1e-11):
             ctx.corr_mismatch("mv." + label, {"x": x}, "V entry: model %r impl %r" % (mV, V))
+            search(m, x)
         elif close(dV, mD, sc, rtol=1e-11):
             ctx.count("entry_dV_matches_gradient")
         elif label in ("modelw", "modelz") and close(dV, unfb(o[3]), sc, rtol=1e-11):
@@ -369,6 +393,7 @@ def _entry_correspondence(ctx):
                              "dV entry matches the pinned (non-gradient) formula")
         else:
             ctx.corr_mismatch("mv." + label, {"x": x}, "dV entry: model %r impl %r" % (mD, dV))
+            search(m, x)
 
 
 def run(ctx):
